@@ -562,3 +562,30 @@ Example C19_source_run_subsequent_example :
   /\ src_run_subsequent_batch_plate [] (1, 2) (Some SInput) (TGlob (1, 0)) (DGlob (0, 0)) tt [] None = SRaised [] 8
   /\ src_run_subsequent_batch_plate [] (1, 2) None (TGlob (1, 0)) (DGlob (1, 0)) tt [] None = SRaised [] 9.
 Proof. vm_compute. repeat split; reflexivity. Qed.
+
+(* ---- dir_sort_key, translated: `int(os.path.basename(x).split("_")[1])` over path NAMES (list of components, each a string).
+   examine's configuration gives `dir_sort_key(x)` and `sorted(l, key=dir_sort_key)` the meaning iter_index / plate_index on
+   the model value of the path; these theorems tie that primitive to the source: on the name "<out>/iter_<i>" (resp.
+   "<out>/iter_<i>/plate_<j>", <i> the decimal numeral of a natural number) the translated function returns that index *)
+Theorem C19_model_is_source_dir_sort_key : forall (dir : fspath) (pre : str) (i : nat),
+  Forall (fun c => c <> 95%Z) pre -> src_dir_sort_key (dir ++ [numbered pre i]) = SOk (Z.of_nat i).
+Proof. exact src_dir_sort_key_numbered. Qed.
+Print Assumptions C19_model_is_source_dir_sort_key.
+
+Theorem C19_model_is_source_dir_sort_key_iter_index : forall (out : fspath) (d : iter_path),
+  (0 <= fst d)%Z -> src_dir_sort_key (iter_pathname out d) = SOk (iter_index d).
+Proof. exact src_dir_sort_key_is_iter_index. Qed.
+Print Assumptions C19_model_is_source_dir_sort_key_iter_index.
+
+Theorem C19_model_is_source_dir_sort_key_plate_index : forall (out : fspath) (p : plate_path),
+  (0 <= snd (fst p))%Z -> src_dir_sort_key (plate_pathname out p) = SOk (plate_index p).
+Proof. exact src_dir_sort_key_is_plate_index. Qed.
+Print Assumptions C19_model_is_source_dir_sort_key_plate_index.
+
+(* non-vacuity: "out/iter_12" has key 12 (numeric, two digits); a name without "_" is an IndexError, "iter_x" a ValueError *)
+Example C19_source_dir_sort_key_examples :
+  src_dir_sort_key [[111; 117; 116]; [105; 116; 101; 114; 95; 49; 50]]%Z = SOk 12%Z
+  /\ src_dir_sort_key [[105; 116; 101; 114]]%Z = SRaised [] 98%Z
+  /\ src_dir_sort_key [[105; 116; 101; 114; 95; 120]]%Z = SRaised [] 7%Z
+  /\ iter_pathname [[111; 117; 116]]%Z (12%Z, []) = [[111; 117; 116]; [105; 116; 101; 114; 95; 49; 50]]%Z.
+Proof. vm_compute. repeat split; reflexivity. Qed.
